@@ -359,32 +359,65 @@ Proof.
   destruct acc; [left; reflexivity|]. right. assumption.
 Qed.
 
-(* observations that concern neither any flag nor the history predicates *)
-Definition neutral (o : ms_obs) : Prop := forall X A, obs_effect X A o = None.
+(* the configuration an association was registered with, read off the history *)
+Fixpoint cfg_in (h : list ms_obs) (A : N) : option ms_acfg :=
+  match h with
+  | [] => None
+  | MsOAssoc _ a c :: rest => if N.eqb a A then Some c else cfg_in rest A
+  | _ :: rest => cfg_in rest A
+  end.
+
+Lemma cfg_in_app h1 h2 A :
+  cfg_in (h1 ++ h2) A = match cfg_in h1 A with Some c => Some c | None => cfg_in h2 A end.
+Proof.
+  induction h1 as [|x h1 IH]; [reflexivity|]. cbn [app cfg_in].
+  destruct x; try exact IH. destruct (N.eqb a A); [reflexivity|exact IH].
+Qed.
+
+(* observations an association produces on its own: no task start, no registration, no loss of
+   the connection *)
+Definition local (o : ms_obs) : Prop :=
+  match o with
+  | MsOStart _ _ _ _ _ | MsOTxLink _ _ _ | MsOAssoc _ _ _ | MsOClosed _ _ => False
+  | _ => True
+  end.
+
+(* local observations that concern neither any flag nor the history predicates *)
+Definition neutral (o : ms_obs) : Prop := (forall X A, obs_effect X A o = None) /\ local o.
+
+Lemma cfg_in_local h A : Forall local h -> cfg_in h A = None.
+Proof.
+  induction h as [|x h IH]; [reflexivity|]. intros F. inversion F as [|? ? N1 F2]; subst.
+  cbn [cfg_in]. destruct x; try (apply IH; exact F2). contradiction.
+Qed.
+
+Lemma neutral_local h : Forall neutral h -> Forall local h.
+Proof. apply Forall_impl. intros x [_ L]. exact L. Qed.
 
 Lemma hfold_neutral X A acc h : Forall neutral h -> hfold X A acc h = acc.
 Proof.
   unfold hfold. induction h as [|o h IH] using rev_ind; [reflexivity|].
   intros F. apply Forall_app in F as [F1 F2]. rewrite fold_left_app. cbn [fold_left].
-  unfold hstep. inversion F2 as [|? ? N0 ?]; subst. rewrite N0. apply IH. exact F1.
+  unfold hstep. inversion F2 as [|? ? [N0 _] ?]; subst. rewrite N0. apply IH. exact F1.
 Qed.
 
 (* the relation between an association before and after a piece of behaviour that produced `o` *)
 Definition LS (a : ms_assoc) (o : list ms_obs) (a' : ms_assoc) : Prop :=
   ms_a_addr a' = ms_a_addr a /\ ms_a_cfg a' = ms_a_cfg a /\
   (forall X, flag X a' = true -> hfold X (ms_a_addr a) (flag X a) o = true) /\
-  (forall X B acc, B <> ms_a_addr a -> hfold X B acc o = acc).
+  (forall X B acc, B <> ms_a_addr a -> hfold X B acc o = acc) /\
+  Forall local o.
 
 Lemma LS_trans a o1 a1 o2 a2 : LS a o1 a1 -> LS a1 o2 a2 -> LS a (o1 ++ o2) a2.
 Proof.
-  intros (A1 & C1 & F1 & O1) (A2 & C2 & F2 & O2). repeat split.
-  - congruence.
-  - congruence.
+  intros (A1 & C1 & F1 & O1 & G1) (A2 & C2 & F2 & O2 & G2).
+  split; [congruence|]. split; [congruence|]. split; [|split].
   - intros X HX. rewrite hfold_app. specialize (F2 X HX). rewrite A1 in F2.
     destruct (flag X a1) eqn:E.
     + rewrite (F1 X E). exact F2.
     + apply hfold_mono. exact F2.
   - intros X B acc HB. rewrite hfold_app, O1 by exact HB. apply O2. congruence.
+  - apply Forall_app. split; assumption.
 Qed.
 
 (* flags unchanged (or only lowered), observations neutral *)
@@ -392,15 +425,17 @@ Lemma LS_neutral a o a' :
   ms_a_addr a' = ms_a_addr a -> ms_a_cfg a' = ms_a_cfg a ->
   (forall X, flag X a' = true -> flag X a = true) -> Forall neutral o -> LS a o a'.
 Proof.
-  intros HA HC HF HN. repeat split; auto.
+  intros HA HC HF HN. split; [exact HA|]. split; [exact HC|]. split; [|split].
   - intros X HX. rewrite hfold_neutral by exact HN. auto.
   - intros X B acc _. apply hfold_neutral. exact HN.
+  - apply neutral_local. exact HN.
 Qed.
 
 Lemma LS_refl a : LS a [] a.
 Proof. apply LS_neutral; auto. Qed.
 
-Ltac neutral_tac := repeat (apply Forall_cons || apply Forall_nil || (intros ? ?; reflexivity)).
+Ltac neutral_tac :=
+  repeat (apply Forall_cons || apply Forall_nil || (split; [intros ? ?; reflexivity|exact I])).
 
 (* ---- the association-level functions ---------------------------------------------------------- *)
 
@@ -413,7 +448,7 @@ Lemma eqb_refl_N a : N.eqb a a = true. Proof. apply N.eqb_refl. Qed.
 Definition about (A : N) (o : ms_obs) : Prop :=
   match o with
   | MsOOk _ x _ _ _ | MsOFail _ x _ _ | MsORestartSeen _ x | MsOCleared _ x => x = A
-  | MsOClosed _ _ => False
+  | MsOClosed _ _ | MsOAssoc _ _ _ => False
   | _ => True
   end.
 
@@ -479,7 +514,7 @@ Lemma on_restart_LS now a : forall a' o, ms_on_restart now a = (a', o) -> LS a o
 Proof.
   intros a' o. unfold ms_on_restart.
   destruct (ms_is_idle (ms_ts_clear (ms_a_auto a))) eqn:EC; intros H; inversion H; subst; clear H.
-  - repeat split.
+  - split; [reflexivity|]. split; [reflexivity|]. split; [|split].
     + intros X HX. unfold hfold. cbn [fold_left]. unfold hstep. cbn [obs_effect]. rewrite N.eqb_refl.
       destruct X; cbn in HX |- *.
       * exact HX.
@@ -488,6 +523,7 @@ Proof.
       * discriminate.
       * exfalso; eapply demand_idle; exact HX.
     + intros X B acc HB. apply hfold_other with (A := ms_a_addr a); [exact HB|]. repeat constructor.
+    + repeat constructor.
   - apply LS_refl.
 Qed.
 
@@ -522,8 +558,10 @@ Ltac ls_solve :=
   [ let X := fresh "X" in let H := fresh "HX" in
     intros X H; unfold hfold; cbn [fold_left app]; unfold hstep; cbn [obs_effect];
     rewrite ?N.eqb_refl; destruct X; cbn in H |- *; auto
-  | let X := fresh "X" in let B := fresh "B" in let acc := fresh "acc" in let HB := fresh "HB" in
-    intros X B acc HB; eapply hfold_other; [exact HB|]; cbn [app]; repeat constructor ]]].
+  | split;
+    [ let X := fresh "X" in let B := fresh "B" in let acc := fresh "acc" in let HB := fresh "HB" in
+      intros X B acc HB; eapply hfold_other; [exact HB|]; cbn [app]; repeat constructor
+    | repeat constructor ] ]]].
 
 Lemma LS_app_neutral a o a' n : LS a o a' -> Forall neutral n -> LS a (o ++ n) a'.
 Proof.
@@ -539,15 +577,15 @@ Qed.
 Lemma neutral_fail_kind now a k e : k <> MsKDisableUnsol -> k <> MsKEnableUnsol ->
   neutral (MsOFail now a k e).
 Proof.
-  intros H1 H2 X A. cbn [obs_effect]. destruct e; try reflexivity.
+  intros H1 H2. split; [|exact I]. intros X A. cbn [obs_effect]. destruct e; try reflexivity.
   destruct (N.eqb a A); [|reflexivity]. destruct X, k; try reflexivity; congruence.
 Qed.
 Lemma neutral_fail_err now a k e : e <> MsEIin2 -> neutral (MsOFail now a k e).
-Proof. intros H X A. cbn [obs_effect]. destruct e; try reflexivity. congruence. Qed.
+Proof. intros H. split; [|exact I]. intros X A. cbn [obs_effect]. destruct e; try reflexivity. congruence. Qed.
 Lemma neutral_ok_kind now a k fc s : k <> MsKDisableUnsol -> k <> MsKEnableUnsol -> k <> MsKIntegrity ->
   neutral (MsOOk now a k fc s).
 Proof.
-  intros H1 H2 H3 X A. cbn [obs_effect]. destruct (N.eqb a A); [|reflexivity].
+  intros H1 H2 H3. split; [|exact I]. intros X A. cbn [obs_effect]. destruct (N.eqb a A); [|reflexivity].
   destruct X, k; try reflexivity; congruence.
 Qed.
 
@@ -602,16 +640,16 @@ Proof.
     apply LS_app_neutral; [apply LS_set_polls|].
     constructor; [|constructor]. apply neutral_fail_kind; discriminate.
   - intros H; inversion H; subst; clear H. apply LS_neutral; auto.
-    constructor; [intros X A; reflexivity|]. constructor; [|constructor]. apply neutral_fail_kind; discriminate.
+    constructor; [split; [intros X A; reflexivity|exact I]|]. constructor; [|constructor]. apply neutral_fail_kind; discriminate.
   - intros H; inversion H; subst; clear H.
     apply LS_app_neutral; [apply LS_set_time|].
     constructor; [|constructor]. apply neutral_fail_kind; discriminate.
   - intros H; inversion H; subst; clear H. apply LS_neutral; auto.
-    constructor; [intros X A; reflexivity|]. constructor; [|constructor]. apply neutral_fail_kind; discriminate.
+    constructor; [split; [intros X A; reflexivity|exact I]|]. constructor; [|constructor]. apply neutral_fail_kind; discriminate.
   - intros H; inversion H; subst; clear H. apply LS_neutral; auto.
-    constructor; [intros X A; reflexivity|]. constructor; [|constructor]. apply neutral_fail_kind; discriminate.
+    constructor; [split; [intros X A; reflexivity|exact I]|]. constructor; [|constructor]. apply neutral_fail_kind; discriminate.
   - intros H; inversion H; subst; clear H. apply LS_neutral; auto.
-    constructor; [intros X A; reflexivity|]. constructor; [|constructor]. apply neutral_fail_kind; discriminate.
+    constructor; [split; [intros X A; reflexivity|exact I]|]. constructor; [|constructor]. apply neutral_fail_kind; discriminate.
   - intros H; inversion H; subst; clear H. apply LS_neutral; auto.
     constructor; [|constructor]. apply neutral_fail_kind; discriminate.
 Qed.
@@ -632,7 +670,7 @@ Proof.
   - apply LS_app_neutral; [apply LS_set_polls|].
     constructor; [|constructor]. apply neutral_ok_kind; discriminate.
   - apply LS_neutral; auto. constructor; [|constructor]. apply neutral_ok_kind; discriminate.
-  - apply LS_neutral; auto. constructor; [intros X A; reflexivity|].
+  - apply LS_neutral; auto. constructor; [split; [intros X A; reflexivity|exact I]|].
     constructor; [|constructor]. apply neutral_ok_kind; discriminate.
   - apply LS_neutral; auto. constructor; [|constructor]. apply neutral_ok_kind; discriminate.
   - apply LS_neutral; auto. constructor; [|constructor]. apply neutral_ok_kind; discriminate.
@@ -721,9 +759,9 @@ Proof.
     apply LS_neutral; auto. constructor; [|constructor]. apply neutral_ok_kind; discriminate.
   - destruct (ms_has_objects f); intros H; inversion H; subst; clear H; (split; [|exact I]);
       cbn [handled_obs ms_task_type app]; apply LS_neutral; auto.
-    + constructor; [intros X A; reflexivity|]. constructor; [|constructor].
+    + constructor; [split; [intros X A; reflexivity|exact I]|]. constructor; [|constructor].
       apply neutral_fail_err; discriminate.
-    + constructor; [intros X A; reflexivity|]. constructor; [|constructor].
+    + constructor; [split; [intros X A; reflexivity|exact I]|]. constructor; [|constructor].
       apply neutral_ok_kind; discriminate.
   - intros H; inversion H; subst; clear H. split; [|exact I]. cbn [handled_obs ms_task_type app].
     apply LS_neutral; auto. constructor; [|constructor]. apply neutral_ok_kind; discriminate.
@@ -757,9 +795,9 @@ Qed.
 Lemma priority_task_LS now sys q : forall a a' o r, ms_priority_task now sys q a = (a', o, r) ->
   LS a o a' /\ Forall neutral o.
 Proof.
-  induction q as [|t q IH]; intros a a' o r; cbn [ms_priority_task].
+  induction q as [|[tok uk] q IH]; intros a a' o r; cbn [ms_priority_task].
   - intros H; inversion H; subst. split; [apply LS_set_queue|constructor].
-  - destruct (ms_task_start now sys t a) as [[a1 o1] [t'|]] eqn:Es;
+  - destruct (ms_task_start now sys (ms_user_task tok uk) a) as [[a1 o1] [t'|]] eqn:Es;
       apply task_start_LS in Es as (L1 & N1 & _).
     + intros H; inversion H; subst. split; [|exact N1].
       rewrite <- (app_nil_r o). eapply LS_trans; [exact L1|apply LS_set_queue].
@@ -783,4 +821,88 @@ Proof.
         apply IH in Ep as (L2 & N2). intros H; inversion H; subst.
         split; [eapply LS_trans; eauto|apply Forall_app; split; assumption].
     + intros H; inversion H; subst. split; [apply LS_refl|constructor].
+Qed.
+
+(* ================================================================================================
+   5. Unsolicited responses are gated by the integrity poll (step form; the trace form is
+      SchedProofs.unsol_gated)
+   ================================================================================================ *)
+
+Definition unsol_accepted_obs (x : ms_obs) : Prop :=
+  match x with
+  | MsOCb _ _ MsRtUnsol _ | MsOUnsol _ _ _ _ | MsOTx _ _ => True
+  | _ => False
+  end.
+
+Lemma process_iin_done now f a a1 seen : ms_process_iin now f a = (a1, seen) ->
+  ms_a_cfg a1 = ms_a_cfg a /\ ms_a_addr a1 = ms_a_addr a /\
+  (ms_a_integrity_done a1 = true -> ms_a_integrity_done a = true /\ seen = []) /\
+  (forall x, In x seen -> x = MsORestartSeen now (ms_a_addr a)).
+Proof.
+  unfold ms_process_iin, ms_on_restart.
+  destruct (ms_iin_restart f); [destruct (ms_is_idle (ms_ts_clear (ms_a_auto a)))|];
+    intros H; inversion H; subst; clear H;
+    (split; [|split; [|split]]);
+    try (repeat match goal with |- context [if ?b then _ else _] => destruct b end; reflexivity);
+    try (intros x [Hx|[]]; auto); try (intros x []).
+  - repeat match goal with |- context [if ?b then _ else _] => destruct b end; cbn; discriminate.
+  - repeat match goal with |- context [if ?b then _ else _] => destruct b end; cbn; auto.
+  - repeat match goal with |- context [if ?b then _ else _] => destruct b end; cbn; auto.
+Qed.
+
+(* data-bearing unsolicited responses are neither delivered nor confirmed before the integrity
+   poll has completed; a fragment that itself shows a new restart is not accepted either *)
+Theorem unsol_gated_step : forall now f a a' o,
+  ms_handle_unsolicited now f a = (a', o) ->
+  ms_has_objects f = true -> ms_cl_any (ms_c_integrity (ms_a_cfg a)) = true ->
+  (exists x, In x o /\ unsol_accepted_obs x) ->
+  ms_a_integrity_done a = true /\ ~ In (MsORestartSeen now (ms_a_addr a)) o.
+Proof.
+  intros now f a a' o. unfold ms_handle_unsolicited.
+  destruct (ms_process_iin now f a) as [a1 seen] eqn:E.
+  apply process_iin_done in E as (Hc & Ha & Hd & Hs).
+  intros H Hobj Hcfg (x & Hin & Hx). rewrite Hobj in H.
+  unfold ms_integrity_complete in H. rewrite Hc, Hcfg in H. cbn [negb orb] in H.
+  destruct (ms_a_integrity_done a1) eqn:Ed; cbn [negb orb] in H.
+  - destruct (Hd eq_refl) as [Hda Hse]. subst seen. split; [exact Hda|].
+    destruct (negb (ms_r_ok f)); inversion H; subst; clear H.
+    + cbn in Hin. destruct Hin as [Hin|[]]. subst x. contradiction.
+    + cbn [app]. intros Hbad. apply in_app_or in Hbad as [Hbad|Hbad].
+      * destruct (match ms_a_last_unsol a1 with Some old => _ | None => false end);
+          [|destruct (ms_r_ok f)]; cbn in Hbad; intuition discriminate.
+      * destruct (ms_r_con f); cbn in Hbad; intuition discriminate.
+  - inversion H; subst; clear H. exfalso.
+    apply in_app_or in Hin as [Hin|Hin].
+    + apply Hs in Hin. subst x. exact Hx.
+    + destruct Hin as [Hin|[]]. subst x. exact Hx.
+Qed.
+
+(* an empty unsolicited response is always accepted and, when it asks for it, confirmed *)
+Theorem unsol_empty_confirmed : forall now f a a' o,
+  ms_handle_unsolicited now f a = (a', o) ->
+  ms_has_objects f = false -> ms_r_ok f = true -> ms_r_con f = true ->
+  In (MsOTx now (ms_confirm_unsol_bytes (ms_r_seq f))) o.
+Proof.
+  intros now f a a' o. unfold ms_handle_unsolicited.
+  destruct (ms_process_iin now f a) as [a1 seen] eqn:E.
+  intros H Hobj Hok Hcon. rewrite Hobj, Hok, Hcon in H. rewrite orb_true_r in H. cbn [negb] in H.
+  inversion H; subst; clear H. apply in_or_app. right. apply in_or_app. right. left. reflexivity.
+Qed.
+
+(* a restart indication re-arms clear-restart, integrity and enable, closes the gate, and makes
+   clear-restart the first thing TaskStates::next considers *)
+Theorem restart_rearms : forall now a a' o,
+  ms_on_restart now a = (a', o) -> ms_is_idle (ms_ts_clear (ms_a_auto a)) = true ->
+  ms_is_pending (ms_ts_clear (ms_a_auto a')) = true /\
+  ms_is_pending (ms_ts_integrity (ms_a_auto a')) = true /\
+  ms_is_pending (ms_ts_enable (ms_a_auto a')) = true /\
+  ms_a_integrity_done a' = false /\
+  (forall ev, auto_choice_of (ms_a_cfg a') (ms_a_auto a') ev = CClear).
+Proof.
+  intros now a a' o. unfold ms_on_restart. intros H Hc. rewrite Hc in H. inversion H; subst; clear H.
+  cbn. unfold ms_is_pending.
+  assert (D : forall s, negb (ms_is_idle (ms_demand s)) = true).
+  { intros s; destruct s; reflexivity. }
+  rewrite !D. repeat split; auto.
+  intros ev. unfold auto_choice_of. cbn. unfold ms_is_pending. rewrite D. reflexivity.
 Qed.
